@@ -156,6 +156,33 @@ pub fn test_case(b: &Case) -> Result<CaseInfo, Fail> {
     })
 }
 
+/// Fourth family: one policy, the leader is cancelled while its program is being compiled and the
+/// follower is cancelled at a later point.  At exact quiescence with no coordination call in flight
+/// the leader's budget must be complete.
+pub fn test_two_cancels(c: &crate::checks::c13::Case) -> Result<CaseInfo, Fail> {
+    let obs = crate::srv::explore::explore_blocking(&c.cfg, &c.plan);
+    let leader = c.cfg.leader;
+    if !obs.trigger_fired {
+        return Ok(CaseInfo { classes: vec!["two-cancels:not-fired".into()], ..Default::default() });
+    }
+    if let Some(p) = obs.actor_panicked.iter().position(|x| *x) {
+        return Err(Fail::new("C17|actor-panic", format!("two cancels: state machine of party {p} panicked")));
+    }
+    if obs.inflight_calls == 0 && obs.permits[leader] != c.cfg.concurrency {
+        return Err(Fail::new(
+            "C17|permit-leak-after-cancel",
+            format!("the policy was cancelled at the leader (while compiling) and at the follower; at quiescence nothing is in flight but the leader holds {} of {} permits (cancel results {:?} / {:?})", obs.permits[leader], c.cfg.concurrency, obs.cancel.as_ref().map(|c| c.as_ref().map(|x| &x.0)), obs.cancel2),
+        ));
+    }
+    Ok(CaseInfo {
+        nontrivial: Some(hash_of(&serde_json::to_string(c).unwrap())),
+        classes: vec!["two-cancels".into(), if obs.inflight_calls == 0 { "two-cancels:decided".into() } else { "two-cancels:calls-in-flight".into() }],
+        sample: Some(json!({"two_cancels": {"leader": leader, "plan_cancel": c.plan.cancel, "plan_cancel2": c.plan.cancel2, "permits": obs.permits, "inflight_calls": obs.inflight_calls}})),
+        undecided: obs.inflight_calls != 0,
+        ..Default::default()
+    })
+}
+
 pub fn gen_batch(m: &mut Mix, with_failure: bool, max_sessions: usize, n: usize) -> Batch {
     let k = 1 + m.below(max_sessions);
     let concurrency = 1 + m.below(3);
@@ -198,6 +225,21 @@ pub fn gen_batch(m: &mut Mix, with_failure: bool, max_sessions: usize, n: usize)
 }
 
 fn run_unit(u: &Unit, emit: &mut dyn FnMut(UnitResult)) {
+    if u.count == 0 {
+        // two-cancel family
+        use crate::srv::explore::{Plan, When};
+        for cfg in crate::checks::c13::configs(2, (u.seed % 3) as usize, u.seed, true) {
+            let follower = 1 - cfg.leader;
+            for k in 2..12usize {
+                let case = crate::checks::c13::Case { cfg: cfg.clone(), plan: Plan { cancel: Some((When::WhileCompiling, cfg.leader)), cancel2: Some((When::Step(k), follower)), ..Default::default() } };
+                match test_two_cancels(&case) {
+                    Ok(i) => emit(UnitResult::Ok(i)),
+                    Err(f) => emit(UnitResult::Fail(f, serde_json::to_value(&case).unwrap())),
+                }
+            }
+        }
+        return;
+    }
     let mut m = Mix(u.seed);
     for _ in 0..u.count {
         let n = if u.with_failure && u.seed % 2 == 1 { 3 } else { 2 };
@@ -218,6 +260,9 @@ pub fn units(tier: Tier, seed: u64) -> Vec<Unit> {
         v.push(Unit { seed: seed.wrapping_mul(7919).wrapping_add(k), count: tier.pick(4, 40), with_failure: false, with_cancel: false });
         v.push(Unit { seed: seed.wrapping_mul(104729).wrapping_add(k), count: tier.pick(8, 60), with_failure: true, with_cancel: false });
         v.push(Unit { seed: seed.wrapping_mul(1299709).wrapping_add(k), count: tier.pick(6, 50), with_failure: false, with_cancel: true });
+        if k < 6 {
+            v.push(Unit { seed: seed.wrapping_add(k), count: 0, with_failure: false, with_cancel: true });
+        }
     }
     v
 }
@@ -227,7 +272,7 @@ pub fn run(tier: Tier, seed: u64) -> i32 {
         return run_worker(units(tier, seed), k, of, run_unit);
     }
     let ctx = Ctx::new("C17", tier, seed, "fault_enumeration");
-    ctx.set_rule("generated batches (seeded SplitMix from VERIF_SEED): 1..8 two-party policies in flight at once sharing one semaphore per party, concurrency 1..3, mixed leaders, constants from none/some parties, destination present or absent, random interleaving of all sessions' schedule calls and coordination RPC deliveries (choice vector); second family: 1..3 two-party or 1..2 three-party policies with a failure injected into one validate / run / consts RPC (for three parties: towards one of the two peers only); oracle: (1) per party, the number of sessions it leads whose interval [first run sent, last MPC message sent / result notified by the leader] overlaps never exceeds the concurrency; (2) undisturbed batch: exactly one correct result per destination, every state machine stopped, every semaphore full at exact quiescence; (3) failed RPC: the caller's state machine has stopped, its destination received at most one notification and (run/consts) exactly one error, a failed validate is reported by the schedule call, and the caller's budget is complete; the callee side may linger; third family: 1..4 policies of which one is cancelled at every party at a generated step - (4) once every cancel returned Ok the session's state machines have stopped, no destination got a second notification, the other sessions still deliver their correct results and, when everything has ended, all permits are back; non-trivial = batch with >= 2 sessions or a fired failure; distinct by hash of the batch");
+    ctx.set_rule("generated batches (seeded SplitMix from VERIF_SEED): 1..8 two-party policies in flight at once sharing one semaphore per party, concurrency 1..3, mixed leaders, constants from none/some parties, destination present or absent, random interleaving of all sessions' schedule calls and coordination RPC deliveries (choice vector); second family: 1..3 two-party or 1..2 three-party policies with a failure injected into one validate / run / consts RPC (for three parties: towards one of the two peers only); oracle: (1) per party, the number of sessions it leads whose interval [first run sent, last MPC message sent / result notified by the leader] overlaps never exceeds the concurrency; (2) undisturbed batch: exactly one correct result per destination, every state machine stopped, every semaphore full at exact quiescence; (3) failed RPC: the caller's state machine has stopped, its destination received at most one notification and (run/consts) exactly one error, a failed validate is reported by the schedule call, and the caller's budget is complete; the callee side may linger; third family: 1..4 policies of which one is cancelled at every party at a generated step - (4) once every cancel returned Ok the session's state machines have stopped, no destination got a second notification, the other sessions still deliver their correct results and, when everything has ended, all permits are back; fourth family: one policy, the leader cancelled while compiling and the follower cancelled at a later point - with nothing in flight at quiescence the leader's budget is complete; non-trivial = batch with >= 2 sessions or a fired failure; distinct by hash of the batch");
     let n_units = units(tier, seed).len();
     ctx.extra("work_units", json!(n_units));
     run_parent(&ctx, "C17", n_units);
@@ -235,5 +280,9 @@ pub fn run(tier: Tier, seed: u64) -> i32 {
 }
 
 pub fn replay(path: &str) -> i32 {
+    let text = std::fs::read_to_string(path).unwrap_or_default();
+    if text.contains("\"cancel2\"") && text.contains("\"plan\"") {
+        return crate::fw::replay_case::<crate::checks::c13::Case, _>("C17", path, 3, test_two_cancels);
+    }
     crate::fw::replay_case::<Case, _>("C17", path, 2, test_case)
 }
